@@ -168,6 +168,7 @@ func prop(t *rapid.T) {
 			t.Fatalf("GetRoute(%q) is not the route most recently registered under that name (%s)", name, want.full)
 		}
 	}
+	var sharedBuilder *rux.BuildRequestURL
 	for _, name := range names {
 		nr := latest[name]
 		if nr.route.Path() != nr.full {
@@ -258,7 +259,13 @@ func prop(t *rapid.T) {
 				multi = rapid.SliceOfN(rapid.StringMatching(`[a-c &=]{0,3}`), 2, 3).Draw(t, "multiValues")
 				q["tag"] = append([]string{}, multi...)
 			}
-			u = r.BuildURL(name, rux.NewBuildRequestURL().Params(m).Queries(q))
+			// the application keeps one builder and uses it for every URL it builds
+			if sharedBuilder == nil {
+				sharedBuilder = rux.NewBuildRequestURL()
+			} else {
+				ev.Class("builder-object-used-again-for-another-build")
+			}
+			u = r.BuildURL(name, sharedBuilder.Params(m).Queries(q))
 		default:
 			// without arguments - twice: the first result belongs to the caller, who edits it in place
 			first := r.BuildURL(name)
